@@ -31,6 +31,9 @@ func pickGrammar(r *rand.Rand, idx int, usable bool, cfg gen.RandCfg) *spec.Gram
 		json.Unmarshal(b, &g)
 		return &g
 	}
+	if usable && idx%5 == 3 {
+		return gen.Contexts(r)
+	}
 	if usable {
 		return gen.RandUsable(r, cfg)
 	}
